@@ -65,3 +65,54 @@ Definition orow_agree (s1 : schema) (o1 : option row) (s2 : schema) (o2 : option
       forallb (fun c => ocell_eqb (col s1 r1 c) (col s2 r2 c)) (s1 ++ s2)
   | _, _ => false
   end.
+
+(* ====================================================================== *)
+(* The declarative merge over value classes (see Model.v: cls).  Equality of cells is equality of
+   classes; where both sides hold the same value the merged cell is one of the two representations,
+   chosen symmetrically (the larger byte string). *)
+(* ====================================================================== *)
+Definition ocell_veqb (cls : N -> N) (a b : option cell) : bool :=
+  match a, b with None, None => true | Some x, Some y => cell_veqb cls x y | _, _ => false end.
+
+Definition otie (l r : option cell) : option cell :=
+  match l, r with Some x, Some y => Some (tie x y) | _, _ => l end.
+
+Definition cell_merge_g (cls : N -> N) (b l r : option cell) : option (option cell) :=
+  if ocell_veqb cls l r then Some (otie l r)
+  else if ocell_veqb cls l b then Some r
+  else if ocell_veqb cls r b then Some l
+  else None.
+
+Definition clash_at_g cls (sb sl sr : schema) (ob : option row) (l r : row) (c : N) : bool :=
+  match cell_merge_g cls (ocol sb ob c) (col sl l c) (col sr r c) with None => true | Some _ => false end.
+
+Definition cellwise_conflict_g cls (sb sl sr : schema) (ob : option row) (l r : row) : bool :=
+  existsb (clash_at_g cls sb sl sr ob l r) (sb ++ sl ++ sr).
+
+Definition cellwise_row_g cls (sb sl sr sm : schema) (ob : option row) (l r : row) : row :=
+  map (fun c => match cell_merge_g cls (ocol sb ob c) (col sl l c) (col sr r c) with
+                | Some (Some v) => v | _ => None end) sm.
+
+Definition modified_g cls (sb ss : schema) (b s : row) : bool :=
+  existsb (fun c => negb (ocell_veqb cls (col ss s c) (Some (nullify (col sb b c))))) ss.
+
+Definition spec_row_g cls (sb sl sr : schema) (ob ol or : option row) : option row * bool :=
+  let sm := merged_schema sb sl sr in
+  match ob, ol, or with
+  | _, None, None => (None, false)
+  | None, Some l, None => (Some (remap sm sl l), false)
+  | None, None, Some r => (Some (remap sm sr r), false)
+  | Some b, None, Some r => (None, modified_g cls sb sr b r)
+  | Some b, Some l, None => if modified_g cls sb sl b l then (Some (remap sm sl l), true) else (None, false)
+  | _, Some l, Some r =>
+      if cellwise_conflict_g cls sb sl sr ob l r then (Some (remap sm sl l), true)
+      else (Some (cellwise_row_g cls sb sl sr sm ob l r), false)
+  end.
+
+(* agreement of two optional rows up to representation: same value class in every column *)
+Definition orow_agree_v cls (s1 : schema) (o1 : option row) (s2 : schema) (o2 : option row) : bool :=
+  match o1, o2 with
+  | None, None => true
+  | Some r1, Some r2 => forallb (fun c => ocell_veqb cls (col s1 r1 c) (col s2 r2 c)) (s1 ++ s2)
+  | _, _ => false
+  end.
